@@ -215,6 +215,7 @@ MUTANTS = {
         "d16_reverted": [("_listener.py", "                    protocol.undone = True", "                    protocol.undone = False")],
         "d74_reverted": [("const.py", "_DUPLICATE_PACKET_BACK_TO_BACK_INTERVAL = 20  # ms", "_DUPLICATE_PACKET_BACK_TO_BACK_INTERVAL = 50  # ms")],
         "d75_reverted": [("_core.py", "record for record in previous_addresses if record not in current and record not in shared", "record for record in previous_addresses if record not in current and record not in shared and replaced is not info")],
+        "d77_reverted": [("_core.py", "                    remaining = self._goodbye_without_advertised(out, current)\n", "                    remaining = None\n")],
         "address_goodbye_once": [("_core.py", "        \"\"\"Withdraw the addresses an update took away from a host, at intervals.\"\"\"\n        for i in range(_REGISTER_BROADCASTS):", "        \"\"\"Withdraw the addresses an update took away from a host, at intervals.\"\"\"\n        for i in range(1):")],
         "goodbye_not_processed_by_browser": [("_services/browser.py", "                    elif pointer.is_expired(now):", "                    elif False:")],
         "responder_ignores_qm_ptr": [("_handlers/query_handler.py", "        if type_ in (_TYPE_PTR, _TYPE_ANY):\n            services = self.registry.async_get_infos_type(question_lower_name)", "        if type_ in (_TYPE_ANY,):\n            services = self.registry.async_get_infos_type(question_lower_name)")],
